@@ -428,12 +428,15 @@ def run(ctx):
         class Deep:
             quick, seed, tier, work, replay, prop = False, ctx.seed, ctx.tier, ctx.work, ctx.replay, ctx.prop
         cases = gen(Deep)
+        deepened = True
     else:
         cases = gen(ctx)
     corr = evaluate(ctx, cases, ["dbg", "rel", "isa"], 0.15 if ctx.quick else 0.02)
     from harness import ldlib
     ldlib.part(ctx, corr, ["affine"], "affine_layer")      # long double coordinates
     tie.merge(corr)
+    if locals().get("deepened"):
+        corr.info["deepened"] = True
     return corr
 
 
